@@ -14,8 +14,10 @@ use std::boxed::Box;
 
 #[cfg(feature = "luau")]
 use crate::formatters::{
-    assignment::calculate_hang_level, luau::format_type_assertion,
-    stmt::remove_condition_parentheses, trivia_util::HasInlineComments,
+    assignment::calculate_hang_level,
+    luau::{format_type_assertion, format_type_assertion_on_new_line},
+    stmt::remove_condition_parentheses,
+    trivia_util::HasInlineComments,
 };
 use crate::{
     context::{create_indent_trivia, create_newline_trivia, Context},
@@ -345,15 +347,25 @@ fn format_expression_internal(
         Expression::TypeAssertion {
             expression,
             type_assertion,
-        } => Expression::TypeAssertion {
-            expression: Box::new(format_expression_internal(
+        } => {
+            let expression = format_expression_internal(
                 ctx,
                 expression,
                 ExpressionContext::TypeAssertion,
                 shape,
-            )),
-            type_assertion: format_type_assertion(ctx, type_assertion, shape),
-        },
+            );
+            // If the expression ends with a single line comment, the type assertion has to start a new line
+            let type_assertion = if expression.has_trailing_comments(CommentSearch::Single) {
+                format_type_assertion_on_new_line(ctx, type_assertion, shape)
+            } else {
+                format_type_assertion(ctx, type_assertion, shape)
+            };
+
+            Expression::TypeAssertion {
+                expression: Box::new(expression),
+                type_assertion,
+            }
+        }
         Expression::Parentheses {
             contained,
             expression,
@@ -1435,9 +1447,16 @@ fn format_hanging_expression_(
             #[cfg(feature = "luau")]
             let assertion_shape = shape.take_last_line(&expression);
 
+            // If the expression ends with a single line comment, the type assertion has to start a new line
+            let type_assertion = if expression.has_trailing_comments(CommentSearch::Single) {
+                format_type_assertion_on_new_line(ctx, type_assertion, shape)
+            } else {
+                format_type_assertion(ctx, type_assertion, assertion_shape)
+            };
+
             Expression::TypeAssertion {
                 expression: Box::new(expression),
-                type_assertion: format_type_assertion(ctx, type_assertion, assertion_shape),
+                type_assertion,
             }
         }
         Expression::Parentheses {
